@@ -164,12 +164,170 @@ func (o *Once) Do(f func()) {
 	}
 }
 
-// Sleep replaces time.Sleep: simulated time is the scheduler's step count, a sleep is a few scheduling points.
+// Sleep replaces time.Sleep: the goroutine parks until the simulated clock has advanced by d. The clock advances
+// when nothing else can run (discrete-event time) or, as an injected stall, while other goroutines are runnable.
 func Sleep(d time.Duration) {
-	if cur.Load() == nil {
+	s := cur.Load()
+	if s == nil {
 		time.Sleep(d)
 		return
 	}
-	Yield()
-	Yield()
+	if d < 0 {
+		d = 0
+	}
+	s.call(req{kind: kSleep, dur: int64(d)})
+}
+
+// ---- select, timers, virtual clock (rules R8, R9) -------------------------------------------------------------
+
+// sel gives the scheduler's view of a channel for a select case.
+func (c *Chan[T]) sel() (unsafe.Pointer, int) {
+	if c == nil {
+		return nil, 0
+	}
+	return unsafe.Pointer(c), c.cap
+}
+
+type selectable interface {
+	sel() (unsafe.Pointer, int)
+}
+
+// RecvCase / SendCase build the case list of a rewritten select statement.
+func RecvCase(c selectable) SelCase { p, n := c.sel(); return SelCase{Ch: p, Cap: n} }
+func SendCase(c selectable) SelCase { p, n := c.sel(); return SelCase{Ch: p, Cap: n, Send: true} }
+
+// Select blocks until one of the cases can proceed (or returns -1 at once if none can and hasDefault is set),
+// commits that case in the scheduler and returns its index; the case body then moves the value with
+// TakeSelected / PutSelected.
+// The second result says whether a receive case found a value (false: the channel is closed).
+func Select(hasDefault bool, cases ...SelCase) (int, bool) {
+	s := cur.Load()
+	if s == nil {
+		panic("simrt: select outside a simulated run is not supported by the rewritten code")
+	}
+	rep := s.call(req{kind: kSelect, cases: cases, deflt: hasDefault})
+	if rep.v < 0 {
+		return -1, false
+	}
+	return rep.v / 4, rep.v&1 == 1
+}
+
+// TakeSelected completes a receive case chosen by Select.
+func (c *Chan[T]) TakeSelected(has bool) (T, bool) {
+	var zero T
+	if !has {
+		raceAcquire(unsafe.Pointer(&c.closed))
+		return zero, false
+	}
+	v, tok, k := c.pop()
+	raceAcquire(unsafe.Pointer(tok))
+	raceReleaseMerge(c.slot(k + c.cap))
+	return v, true
+}
+
+// TakeSelected1 is the single-value form.
+func (c *Chan[T]) TakeSelected1(has bool) T {
+	v, _ := c.TakeSelected(has)
+	return v
+}
+
+// PutSelected completes a send case chosen by Select.
+func (c *Chan[T]) PutSelected(v T) {
+	s := cur.Load()
+	tok := new(byte)
+	raceRelease(unsafe.Pointer(tok))
+	k := c.push(v, tok)
+	if c.cap == 0 {
+		s.call(req{kind: kSendWait, obj: unsafe.Pointer(c)})
+		raceAcquire(c.slot(k))
+	} else if k >= c.cap {
+		raceAcquire(c.slot(k))
+	}
+}
+
+var epoch = time.Date(2026, 1, 1, 0, 0, 0, 0, time.UTC)
+
+// Now replaces time.Now: the simulated clock.
+func Now() time.Time {
+	s := cur.Load()
+	if s == nil {
+		return time.Now()
+	}
+	return epoch.Add(time.Duration(s.call(req{kind: kNow}).v))
+}
+
+// Since replaces time.Since.
+func Since(t time.Time) time.Duration { return Now().Sub(t) }
+
+// After replaces time.After: a channel that receives the time once the simulated clock has advanced by d.
+func After(d time.Duration) *Chan[time.Time] {
+	c := MakeChan[time.Time](1)
+	if cur.Load() == nil {
+		go func() { time.Sleep(d); c.real <- time.Now() }()
+		return c
+	}
+	Go(func() {
+		Sleep(d)
+		c.Send(Now())
+	})
+	return c
+}
+
+// Timer replaces *time.Timer (AfterFunc / NewTimer).
+type Timer struct {
+	C       *Chan[time.Time]
+	mu      Mutex
+	stopped bool
+	fired   bool
+	real    *time.Timer
+}
+
+func (t *Timer) Stop() bool {
+	if t.real != nil {
+		return t.real.Stop()
+	}
+	t.mu.Lock()
+	defer t.mu.Unlock()
+	was := !t.stopped && !t.fired
+	t.stopped = true
+	return was
+}
+
+// AfterFunc replaces time.AfterFunc.
+func AfterFunc(d time.Duration, f func()) *Timer {
+	if cur.Load() == nil {
+		return &Timer{real: time.AfterFunc(d, f)}
+	}
+	t := &Timer{}
+	Go(func() {
+		Sleep(d)
+		t.mu.Lock()
+		run := !t.stopped
+		t.fired = true
+		t.mu.Unlock()
+		if run {
+			f()
+		}
+	})
+	return t
+}
+
+// NewTimer replaces time.NewTimer.
+func NewTimer(d time.Duration) *Timer {
+	t := &Timer{C: MakeChan[time.Time](1)}
+	if cur.Load() == nil {
+		t.real = time.AfterFunc(d, func() { t.C.real <- time.Now() })
+		return t
+	}
+	Go(func() {
+		Sleep(d)
+		t.mu.Lock()
+		run := !t.stopped
+		t.fired = true
+		t.mu.Unlock()
+		if run {
+			t.C.Send(Now())
+		}
+	})
+	return t
 }
